@@ -725,6 +725,16 @@ REST = b"\x05\x00\xff"
 def check_encoder(der, kind, v):
     """round trip of one value of an encoder domain through the REAL encoder and reader (+ equality with the
     reference encoding); v is JSON-able.  None if fine."""
+    if kind == "seq-of-values":
+        # consecutive calls in ONE process on values that are different but collide under hash() (CPython hashes integers
+        # modulo 2^61 - 1, tuples from their items' hashes): every call is judged on its own; a memo keyed by hash(args)
+        # (round-8 seed C11-mut59-2) answers the second with the first
+        for k2, v2 in v:
+            bad = check_encoder(der, k2, v2)
+            if bad:
+                bad["at"] = [k2, short(v2)]
+                return bad
+        return None
     try:
         if kind == "length":
             enc, want = der.encode_length(v), R_len(v)
@@ -806,6 +816,11 @@ def encoder_cases(ctx):
         yield "sequence", [body.hex()]
         for tag in (0, 1, 3, 30, 31) if len(body) < 300 else (rng.randrange(32),):
             yield "constructed", [tag, body.hex()]
+    M = (1 << 61) - 1          # sys.hash_info.modulus on 64-bit CPython: hash(x + M) == hash(x)
+    yield "seq-of-values", [["oid", [2, 25, 0]], ["oid", [2, 25, M]], ["oid", [2, 25, 2 * M]], ["oid", [1, 2, 7, 3]], ["oid", [1, 2, 7 + M, 3]],
+                            ["oid", [2, 5]], ["oid", [2, 5 + M]], ["oid", [0, 39, M - 1]], ["oid", [0, 39, 2 * M - 1]]]
+    yield "seq-of-values", [["integer", 5], ["integer", 5 + M], ["integer", 0], ["integer", M], ["number", 9], ["number", 9 + M],
+                            ["length", 3], ["length", 3 + M], ["integer", -1 % M], ["integer", 2 * M + 5]]
     yield "sequence", []
     for k in (2, 3, 5):
         for _ in range(3 if ctx.quick else 30):
